@@ -412,3 +412,83 @@ Theorem C04_tag_find_in_member_table : forall (count : nat) (m : list entry) (ta
   names_members count m = true -> tag_find m tag = Some n -> (n < count)%nat.
 Proof. exact tag_find_in_table. Qed.
 Print Assumptions C04_tag_find_in_member_table.
+
+(* ------------------------------------------------------------------------------------------------
+   Rt/SafetyFrag.v: the buffers that reassemble a fragmented PER value (X.691 11.9.3.8), as functions of
+   the chunk sizes the length determinants announce, in ANY order *)
+From A1 Require Import Rt.SafetyFrag.
+
+(* uper_open_type_get_simple(): every store of a fragment lies inside the block as it is at that moment *)
+Theorem C04_frag_opentype_writes_in_bounds : forall cs : list Z,
+  Forall chunk_ok cs -> total cs < two58 -> Forall wr_in (ot_writes (ot_c cs)).
+Proof. exact ot_writes_in_bounds. Qed.
+Print Assumptions C04_frag_opentype_writes_in_bounds.
+
+Theorem C04_frag_opentype_length_is_total : forall cs : list Z,
+  Forall chunk_ok cs -> total cs < two58 -> ot_len (ot_c cs) = total cs /\ total cs <= ot_size (ot_c cs).
+Proof. exact ot_length_is_total. Qed.
+Print Assumptions C04_frag_opentype_length_is_total.
+
+(* the loop's invariant itself, from any state that satisfies it: bufLen <= bufSize <= 4 bufLen + 320K *)
+Theorem C04_frag_opentype_invariant : forall (cs : list Z) (bufLen bufSize : Z),
+  Forall chunk_ok cs -> ot_inv bufLen bufSize -> bufLen + total cs < two58 ->
+  let r := ot_run grow_c cs bufLen bufSize in
+  Forall wr_in (ot_writes r) /\ ot_len r = bufLen + total cs /\ ot_inv (ot_len r) (ot_size r) /\
+  Forall (fun q => 0 <= q <= 4 * (bufLen + total cs) + 5 * frag_max) (ot_reqs r).
+Proof. exact ot_run_safe. Qed.
+Print Assumptions C04_frag_opentype_invariant.
+
+Theorem C04_frag_opentype_requests_linear : forall cs : list Z,
+  Forall chunk_ok cs -> total cs < two58 ->
+  Forall (fun q => 0 <= q <= 4 * total cs + 5 * frag_max) (ot_reqs (ot_c cs)).
+Proof. exact ot_requests_linear. Qed.
+Print Assumptions C04_frag_opentype_requests_linear.
+
+(* seeded/C04-6: "the first fragment sizes the buffer, the following ones double it" *)
+Theorem C04_frag_opentype_doubling_refuted :
+  Forall chunk_ok [16384; 65536; 83] /\
+  forallb wr_inb (ot_writes (ot_double [16384; 65536; 83])) = false /\
+  ot_writes (ot_double [16384; 65536]) = [mkW 0 16384 16384; mkW 16384 65536 32768] /\
+  forallb wr_inb (ot_writes (ot_c [16384; 65536; 83])) = true /\
+  ot_reqs (ot_c [16384; 65536; 83]) = [16384; 131072].
+Proof. exact ot_doubling_refuted. Qed.
+Print Assumptions C04_frag_opentype_doubling_refuted.
+
+(* OCTET STRING / BIT STRING / ANY (brk = true) and INTEGER (brk = false): fragments and the terminating NUL *)
+Theorem C04_frag_string_writes_in_bounds : forall (brk : bool) (cs : list Z),
+  Forall chunk_ok cs -> cs <> [] -> Forall wr_in (snd (str_all brk 1 cs)).
+Proof. exact str_writes_in_bounds. Qed.
+Print Assumptions C04_frag_string_writes_in_bounds.
+
+Theorem C04_frag_string_no_slack_refuted :
+  forallb wr_inb (snd (str_all true 0 [16384; 65536; 5])) = false /\
+  forallb wr_inb (snd (str_all true 1 [16384; 65536; 5])) = true /\
+  fst (str_all true 1 [16384; 65536; 5]) = [16385; 81921; 81926].
+Proof. exact str_no_slack_refuted. Qed.
+Print Assumptions C04_frag_string_no_slack_refuted.
+
+(* asn_set_add(): the slot written is inside the array after every number of calls *)
+Theorem C04_frag_array_writes_in_bounds : forall n : nat, Forall wr_in (a_writes (arr_run n 0 0)).
+Proof. exact arr_writes_in_bounds. Qed.
+Print Assumptions C04_frag_array_writes_in_bounds.
+
+(* the contents: every way of cutting a value into fragments is reassembled to the value (what the tie observes as
+   "the same value as the largest-first fragmentation") *)
+Theorem C04_frag_opentype_reassembles : forall frs : list (list Z),
+  Forall chunk_ok (sizes frs) -> Z.of_nat (length (concat frs)) < two58 ->
+  exists b, ot_data grow_c frs [] 0 = Some (b, length (concat frs)) /\ firstn (length (concat frs)) b = concat frs.
+Proof. exact ot_reassembles. Qed.
+Print Assumptions C04_frag_opentype_reassembles.
+
+Theorem C04_frag_opentype_order_independent : forall frs1 frs2 : list (list Z),
+  Forall chunk_ok (sizes frs1) -> Forall chunk_ok (sizes frs2) -> concat frs1 = concat frs2 ->
+  Z.of_nat (length (concat frs1)) < two58 ->
+  exists b1 b2 n, ot_data grow_c frs1 [] 0 = Some (b1, n) /\ ot_data grow_c frs2 [] 0 = Some (b2, n) /\ firstn n b1 = firstn n b2.
+Proof. exact ot_order_independent. Qed.
+Print Assumptions C04_frag_opentype_order_independent.
+
+Theorem C04_frag_opentype_doubling_store_refuted :
+  ot_data grow_double [repeat 1 3; repeat 2 9] [] 0 = None /\
+  ot_data grow_c [repeat 1 3; repeat 2 9] [] 0 = Some (repeat 1 3 ++ repeat 2 9 ++ repeat 0 9, 12%nat).
+Proof. exact ot_data_doubling_refuted. Qed.
+Print Assumptions C04_frag_opentype_doubling_store_refuted.
